@@ -515,6 +515,13 @@ class Interp:
                     return a / b
                 if op == 'Pow':
                     return a ** b
+                if op in ('BitOr', 'BitAnd', 'BitXor', 'LShift', 'RShift') \
+                        and isinstance(a, int) and isinstance(b, int):
+                    import operator
+                    return {'BitOr': operator.or_, 'BitAnd': operator.and_,
+                            'BitXor': operator.xor,
+                            'LShift': operator.lshift,
+                            'RShift': operator.rshift}[op](a, b)
             except ZeroDivisionError:
                 self.raise_('ZeroDivisionError', node=node)
             except TypeError:
